@@ -17,6 +17,10 @@ Rules that keep the oracle from demanding more than the statement are listed in 
 Monitors: value / dimension agreement per tree, errors raised at the meaningless node,
 comparisons judged / skipped, modulo on the circle judged / skipped, and the icontract
 postconditions of vf.contracts on the internal conversion / Units algebra calls.
+
+quick: 20 000 trees (80 blocks of 250), thorough: 1 200 000 trees (480 blocks of 2500); every tree is
+generated from gen.rng_for(VERIF_SEED, "C05", block).  `--replay <file>` re-judges the recorded tree
+(or re-runs the recorded block for a contract violation).
 """
 import decimal
 import json
@@ -1046,13 +1050,20 @@ def replay(path):
     import strengths.units as U
     contracts.install()
     tree = w.get("tree")
-    if tree is None and "case" in w:
+    if tree is None and "case" in w and "k" in w["case"]:
         c = w["case"]
         r = gen.rng_for(c["seed"], "C05", c["block"])
         for _ in range(c["k"] + 1):
             tree, _cls = gen_tree(r)
+    if tree is None and "case" in w and "n" in w["case"]:
+        # a contract violation: recorded with the block it happened in; re-run that block
+        v = run_block(w["case"])
+        print(json.dumps({"counts": v["counts"], "contract_counts": v["contract_counts"],
+                          "bad": [{k: x for k, x in b.items() if k != "tree"} for b in v["bad"][:5]],
+                          "contract_violations": v["contract_bad"][:5]}, indent=1, default=str))
+        return 1 if (v["bad"] or v["contract_bad"]) else 0
     if tree is None:
-        print("no tree in the witness (contract violations are replayed by re-running the tier with the same seed)")
+        print("no tree and no block in the witness")
         return 2
     res = judge(U, tree)
     log, _ = contracts.drain()
@@ -1086,7 +1097,7 @@ def main():
                 "contract:Units.invert", "contract:Units.raiseto")
     run.max_samples = 12
     thorough = tier() == "thorough"
-    n_total = 2000000 if thorough else 20000
+    n_total = 1200000 if thorough else 20000
     per = 2500 if thorough else 250
     cases = [{"seed": seed(), "block": b, "n": per} for b in range(n_total // per)]
     res = pmap("vf.checks.c05:run_block", cases, cpu_budget=900)
